@@ -61,7 +61,26 @@ def pool():
             if stub:
                 sys.modules.pop("jax", None)
 
+    def signed(x, y, *, opt=None):
+        return np.asarray(np.copysign(x + y, opt))
+
+    ad_signed = einx.numpy.adapt_numpylike_elementwise(signed)
+
+    def typed(x, y, *, opt=None):
+        return np.asarray(x + y + (100.0 if isinstance(opt, bool) else 10.0 if isinstance(opt, int) else 1.0) * (opt if opt is not None else 0))
+
+    ad_typed = einx.numpy.adapt_numpylike_elementwise(typed)
+
     calls = [
+        # keyword options that are == in Python but observably different (sign of zero, bool/int/float): a cache hit must not confuse them
+        lambda: ad_signed("a b, a b", x23, x23, opt=0.0),
+        lambda: ad_signed("a b, a b", x23, x23, opt=-0.0),
+        lambda: ad_signed("a b, a b", x23, x23, opt=np.float32(-0.0)),
+        lambda: ad_signed("a b, a b", x23, x23, opt=np.float32(0.0)),
+        lambda: ad_signed("a b, a b", x23, x23, opt=[0.0, -0.0][1]),
+        lambda: ad_typed("a b, a b", x23, x23, opt=1),
+        lambda: ad_typed("a b, a b", x23, x23, opt=True),
+        lambda: ad_typed("a b, a b", x23, x23, opt=1.0),
         lambda: einx.id("a b -> a b c", x23, c=2),
         lambda: einx.id("a b -> a b c", x23, c=2.0),
         lambda: einx.id("a b -> a b c", x23, c=True),
